@@ -298,7 +298,8 @@ def _pad_face_connections(
                         # TODO: Can we do this with an assignment in xarray? Maybe not important yet.
         faces.append(target_da)
 
-    da_padded = xr.concat(faces, dim=facedim)
+    # the halo may come from another array (the partner component), the name stays that of the padded one
+    da_padded = xr.concat(faces, dim=facedim).rename(da.name)
 
     # trim back to original shape
     def _trim_expanded_padding_width(da, grid, padding_width, padding_width_expanded):
